@@ -271,8 +271,11 @@ def run_case(case):
     det = dict(subject=label, cfg=cfg, history=hist)
 
     def compare(op, mode, xx, cc):
-        A.train(mode == "train")
-        B.train(mode == "train")
+        # no redundant mode calls: a model that was put into evaluation mode BEFORE its checkpoint was loaded is used as it
+        # is (anything derived from the statistics at the time of the mode switch would be stale)
+        for m_ in (A, B):
+            if m_.training != (mode == "train"):
+                m_.train(mode == "train")
         try:
             with torch.no_grad():
                 oa = do(A, op, xx, cc, seed + 5)
